@@ -201,8 +201,10 @@ def run_property(prop, tier="quick", seed=0):
     print("[%s] tier=%s configs=%s functions=%d obligations=%d discharged=%d wall=%.1fs"
           % (prop, tier, ",".join(cfgs), len(ctx.funcs), n_obl, n_obl - n_viol_obl, wall))
     for r, s in sorted(rules.items()):
-        bad = [k for k in ctx.violations if k.split("|")[0] == r]
-        print("  %-12s instances=%-4d %s" % (r, len(s), "ok" if not bad else "VIOLATED x%d" % len(bad)))
+        bad = [k for k in ctx.violations if k.split("|")[0] == r and k not in known_keys]
+        kn = [k for k in ctx.violations if k.split("|")[0] == r and k in known_keys]
+        st = "ok" if not bad and not kn else ("VIOLATED x%d" % len(bad) if bad else "known-finding x%d" % len(kn))
+        print("  %-12s instances=%-4d %s" % (r, len(s), st))
     for v in suppressed:
         print("KNOWN-FINDING: property=%s %s -- %s" % (prop, v.key, known_keys[v.key].get("what", v.msg)))
     for v in new:
